@@ -30,7 +30,7 @@ FLOW = {'start': [], 'middle': [('start',)], 'finish': [('middle',)]}
 
 
 def gen_case(rng):
-    return {'kind': 'dynflow', 'entry': rng.choice(['parts', 'composite', 'store']),
+    return {'kind': 'dynflow', 'entry': rng.choice(['parts', 'composite', 'store', 'merge', 'template', 'composer']),
             'initial': rng.choice([['a'], ['a'], ['a', 'z']]),
             'generate_at': rng.choice([None, 1, 2, 2]), 'divide_at': rng.choice([None, None, 2, 3]),
             'ticks': rng.choice([4, 5]), 'x0': rng.choice([0, 2, 7]), 'slow': rng.choice([None, None, 2, 3]),
@@ -48,6 +48,15 @@ def corpus():
         # F36: the dividing mother holds a process (timestep 3) whose update is in flight; the daughters inherit it
         {'kind': 'dynflow', 'entry': 'parts', 'initial': ['a'], 'generate_at': None, 'divide_at': 2, 'ticks': 5,
          'x0': 1, 'slow': 3},
+        # compartments merged into an environment composite at a path; a template merged into two replicates, the
+        # first of which deletes the compartment; a composer whose flow depends on the configuration given to
+        # generate()
+        {'kind': 'dynflow', 'entry': 'merge', 'initial': ['a', 'z'], 'generate_at': None, 'divide_at': None,
+         'ticks': 3, 'x0': 2},
+        {'kind': 'dynflow', 'entry': 'template', 'initial': ['a', 'z'], 'generate_at': None, 'divide_at': None,
+         'ticks': 3, 'x0': 2},
+        {'kind': 'dynflow', 'entry': 'composer', 'initial': ['a'], 'generate_at': 2, 'divide_at': None,
+         'ticks': 4, 'x0': 0},
         # the structure changes during a step phase (a legacy deriver generates / divides)
         {'kind': 'dynflow', 'entry': 'parts', 'initial': ['a', 'z'], 'generate_at': 2, 'divide_at': None, 'ticks': 4,
          'x0': 2, 'director': 'deriver'},
@@ -120,6 +129,8 @@ def _classes():
                 upd['_generate'] = [dict(compartment(self.parameters['key'], case['x0'] + 100), key='g')]
             if case['divide_at'] is not None and t + 1 == case['divide_at'] and 'a' in states['agents']:
                 upd['_divide'] = {'mother': 'a', 'daughters': [{'key': 'a0'}, {'key': 'a1'}]}
+            if case.get('delete_at') is not None and t + 1 == case['delete_at'] and 'a' in states['agents']:
+                upd['_delete'] = ['a']
             return {'agents': upd} if upd else {}
 
     class DirectorStep(Step):
@@ -157,6 +168,28 @@ def compartment(key, x0, slow=None):
             'flow': {r: list(FLOW[r]) for r in ROLES},
             'topology': dict({p: {'vars': ('vars',)} for p in procs}, **{r: {'vars': ('vars',)} for r in ALL_ROLES}),
             'initial_state': {'vars': {'x': x0}}}
+
+
+def cell_composer(key, slow=None):
+    from vivarium.core.composer import Composer
+
+    class Cell(Composer):
+        defaults = {'chain': False}
+
+        def generate_processes(self, config):
+            return compartment(key, 0, slow)['processes']
+
+        def generate_steps(self, config):
+            steps = compartment(key, 0, slow)['steps']
+            return steps if config['chain'] else {'tally': steps['tally']}
+
+        def generate_flow(self, config):
+            return {r: list(FLOW[r]) for r in ROLES} if config['chain'] else {}
+
+        def generate_topology(self, config):
+            topo = compartment(key, 0, slow)['topology']
+            return topo if config['chain'] else {k: v for k, v in topo.items() if k not in ROLES}
+    return Cell({})
 
 
 def run_impl(case):
@@ -200,11 +233,62 @@ def run_impl(case):
                 parts[part]['agents'][k] = comp[part]
             init['agents'][k] = comp['initial_state']
         kw = dict(emitter={'type': 'verif_df', 'ctx_key': key}, display_info=False, progress_bar=False)
+
+        def director_parts(c):
+            if c.get('director') == 'deriver':
+                return dict(steps={'director': DirectorStep({'key': key, 'case': c})},
+                            topology={'director': {'agents': ('agents',)}})
+            return dict(processes={'director': Director({'key': key, 'case': c})},
+                        topology={'director': {'agents': ('agents',)}})
+
+        def nested(comp, k):
+            return Composite({part: {'agents': {k: comp[part]}} for part in ('processes', 'steps', 'flow', 'topology')})
         if case['entry'] == 'parts':
             eng = Engine(processes=parts['processes'], steps=parts['steps'], flow=parts['flow'],
                          topology=parts['topology'], initial_state=init, **kw)
         elif case['entry'] == 'composite':
             eng = Engine(composite=Composite(parts), initial_state=init, **kw)
+        elif case['entry'] == 'merge':
+            # every compartment is merged into the environment composite at its path
+            env = Composite({})
+            for i, k in enumerate(case['initial']):
+                comp = compartment(key, case['x0'] + 10 * i, case.get('slow'))
+                env.merge(composite=Composite({p_: comp[p_] for p_ in ('processes', 'steps', 'flow', 'topology')}),
+                          path=('agents', k))
+            env.merge(**director_parts(case))
+            eng = Engine(composite=env, initial_state=init, **kw)
+        elif case['entry'] == 'template':
+            # compartment templates (already nested at their paths) are merged into a fresh environment for every
+            # replicate; in a first replicate, which is not judged, compartment `a` is deleted at run time
+            # (no slow process here: a serial process object whose compartment is deleted while its update is in
+            # flight keeps that command pending, and the replicates share the template's process objects —
+            # noted edge, not part of this family)
+            templates = [nested(compartment(key, case['x0'] + 10 * i, None), k)
+                         for i, k in enumerate(case['initial'])]
+            pilot_case = dict(case, generate_at=None, divide_at=None, delete_at=1, director='process')
+            for c in (pilot_case, case):
+                env = Composite({})
+                for tpl in templates:
+                    env.merge(composite=tpl)
+                env.merge(**director_parts(c))
+                if c is pilot_case:
+                    ctx['engine'] = None
+                    pilot = Engine(composite=env, initial_state=init, emitter={'type': 'null'}, display_info=False,
+                                   progress_bar=False)
+                    pilot.update(2)
+                    pilot.end()
+                    del ctx['log'][:]
+                    ctx['nphase'] = 0
+                else:
+                    eng = Engine(composite=env, initial_state=init, **kw)
+        elif case['entry'] == 'composer':
+            # the chain of steps and its flow exist only under the configuration handed to generate()
+            env = Composite({})
+            cell = cell_composer(key, case.get('slow'))
+            for i, k in enumerate(case['initial']):
+                env.merge(composite=cell.generate({'chain': True}, path=('agents', k)))
+            env.merge(**director_parts(case))
+            eng = Engine(composite=env, initial_state=init, **kw)
         else:
             eng = Engine(store=Composite(parts).generate_store({'initial_state': init}), **kw)
         ctx['engine'] = eng
